@@ -194,7 +194,17 @@ pub fn run(args: &Args) {
                     to.set_coordinate("BF70");
                     let texts: Vec<String> = series.iter().map(render).collect();
                     let mut chart = umya_spreadsheet::Chart::default();
-                    chart.new_chart(umya_spreadsheet::ChartType::LineChart, from, to, texts.iter().map(|s| s.as_str()).collect());
+                    if texts.len() == 2 && rng.chance(1, 2) {
+                        // a combination chart: columns for the first series and a line for the second, in one plot area
+                        chart.new_chart(umya_spreadsheet::ChartType::BarChart, from.clone(), to.clone(), vec![texts[0].as_str()]);
+                        let mut line_only = umya_spreadsheet::Chart::default();
+                        line_only.new_chart(umya_spreadsheet::ChartType::LineChart, from, to, vec![texts[1].as_str()]);
+                        let line = line_only.get_plot_area_mut().get_line_chart().unwrap().clone();
+                        chart.get_plot_area_mut().set_line_chart(line);
+                        o.feat("combination-chart");
+                    } else {
+                        chart.new_chart(umya_spreadsheet::ChartType::LineChart, from, to, texts.iter().map(|s| s.as_str()).collect());
+                    }
                     book.get_sheet_mut(&si).unwrap().add_chart(chart);
                     charts.push((si, series));
                 }
@@ -394,7 +404,19 @@ pub fn run(args: &Args) {
                 let got: Result<Vec<String>, String> = guard(|| {
                     let ws = book.get_sheet_mut(csi).unwrap();
                     match ws.get_chart_collection_mut().get_mut(0) {
-                        Some(ch) => ch.get_area_chart_series_list_mut().get_area_chart_series().iter().map(|s| s.get_values().map(|v| v.get_number_reference().get_formula().get_address_str()).unwrap_or_default()).collect(),
+                        Some(ch) => {
+                            // every chart kind of the plot area, columns first
+                            let pa = ch.get_plot_area_mut();
+                            let refs = |list: &umya_spreadsheet::structs::drawing::charts::AreaChartSeriesList| -> Vec<String> { list.get_area_chart_series().iter().map(|s| s.get_values().map(|v| v.get_number_reference().get_formula().get_address_str()).unwrap_or_default()).collect() };
+                            let mut v = vec![];
+                            if let Some(b) = pa.get_bar_chart() {
+                                v.extend(refs(b.get_area_chart_series_list()));
+                            }
+                            if let Some(l) = pa.get_line_chart() {
+                                v.extend(refs(l.get_area_chart_series_list()));
+                            }
+                            v
+                        }
                         None => vec!["<chart missing>".to_string()],
                     }
                 });
